@@ -103,11 +103,16 @@ func seedOverlayProgram(d, repo string) (SensResult, *Program) {
 		for _, m := range diffFile.FindAllStringSubmatch(string(patch), -1) {
 			files = append(files, m[1])
 			src, err := os.ReadFile(filepath.Join(repo, m[1]))
+			os.MkdirAll(filepath.Dir(filepath.Join(tmp, m[1])), 0o755)
 			if err != nil {
+				// a file the patch creates: nothing to copy, patch writes it
+				if os.IsNotExist(err) {
+					continue
+				}
 				ok = false
+				r.Note = err.Error()
 				break
 			}
-			os.MkdirAll(filepath.Dir(filepath.Join(tmp, m[1])), 0o755)
 			os.WriteFile(filepath.Join(tmp, m[1]), src, 0o644)
 		}
 		if ok {
